@@ -155,6 +155,26 @@ fn macro_binding() {
         n += 1;
         if let Some(w) = run_case("", &params, brace_form, &repl, &args) { println!("WITNESS {w}"); return; }
     } } }
+    // several space TOKENS in a row before an undelimited argument (the lexer never produces them; parameter substitution
+    // does): TeX.2021.393 skips all of them
+    for (lhs, rhs) in [
+        (r"\def\a#1{[#1]}\def\b#1{\a#1 x}\b{ }!", "[x]!"),
+        (r"\def\a#1{[#1]}\def\b#1#2{\a#1#2 x}\b{ }{ }!", "[x]!"),
+        (r"\def\a#1#2{[#1|#2]}\def\b#1{\a#1 x#1 {yz}}\b{ }!", "[x|yz]!"),
+        (r"\def\a#1{[#1]}\def\b#1{\a#1#1#1{x}}\b{ }!", "[x]!"),
+    ] {
+        n += 1;
+        let (l2, r2) = (lhs.replace("\\", "\\"), rhs.to_string());
+        let (l3, r3) = (l2.clone(), r2.clone());
+        let ok = std::panic::catch_unwind(move || {
+            let options = vec![TestOption::BuiltInCommands(built_ins)];
+            texlang_testing::run_expansion_equality_test::<State, texlang::vm::DefaultHandlers>(&l3, &r3, false, &options);
+        }).is_ok();
+        if !ok {
+            println!("WITNESS {{\"fn\": \"call\", \"unit_fns\": [\"call\", \"parse_undelimited_argument\", \"parse_impl\"], \"source\": \"{}\", \"observed\": \"expansion differs from TeX's\", \"expected\": \"{}\"}}", l2.replace('\\', "\\\\"), r2);
+            return;
+        }
+    }
     println!("STATS {{\"fn\": \"call\", \"cases\": {n}}}");
 }
 
